@@ -23,3 +23,8 @@ def run(ctx, rep):
     more2.rule_arg_names(mod, rep, lambda f: re.match(r"p[sdcz]gstrf_MemInit|p[sdcz]gstrf_expand|p[sdcz]gstrf_WorkInit|p[sdcz]gstrf_thread_init|p[sdcz]gssvx$|p[sdcz]gstrf$", f.name) is not None, floor=1)
     from ..rules import more3
     more3.rule_work_zero(mod, rep)
+    from ..rules import more4
+    more4.rule_setup_space(mod, rep)
+    more4.rule_workfreeall_order(mod, rep)
+    from ..rules import more4
+    more4.rule_int_work_fill(mod, rep)
